@@ -250,7 +250,8 @@ def proof_status(prop_file):
         for a in axs:
             if a not in AXIOM_WHITELIST and a.split(".")[-1] not in AXIOM_WHITELIST:
                 bad_ax.append("%s depends on %s" % (name, a))
-    missing_pa = [t for t in theorems if t not in axioms]
+    need_pa = re.findall(r"^\s*(?:Theorem|Corollary)\s+(\w+)", txt_nc, flags=re.M)
+    missing_pa = [t for t in need_pa if t not in axioms]
     return dict(theorems=theorems + examples, ok=ok and not bad_ax and not missing_pa,
                 compiled=ok, axioms=axioms, bad_axioms=bad_ax, missing_print_assumptions=missing_pa, log=log[-6000:])
 
